@@ -19,6 +19,7 @@ type vgen struct {
 	encodable map[reflect.Type]bool
 	depth     int
 	budget    int // remaining node budget for the value being generated
+	cleanBits bool   // round-trip domains: BIT STRING buffers with clear unused bits only (the decoder returns them clear)
 	pending   string // constraint sweep: the next leaf/list generated takes this boundary ("size-lb", "size-ub", "size-below",
 	// "size-above", "val-lb", "val-ub", "val-below", "val-above"); consumed once
 	forceType  reflect.Type // constraint sweep: the struct type whose field forceField is driven
@@ -210,7 +211,9 @@ func (g *vgen) fill(v reflect.Value, p tags.Params) {
 		n, _ := g.length(p, 64)
 		b := make([]byte, (n+7)/8)
 		g.rng.Read(b)
-		if n%8 != 0 {
+		if n%8 != 0 && (g.cleanBits || g.rng.Intn(3) != 0) {
+			// two times out of three the unused bits of the last octet are clear; otherwise the caller's buffer holds
+			// arbitrary bits there (the value is the same BIT STRING; the encoding must not depend on them)
 			b[len(b)-1] &= 0xff << uint(8-n%8)
 		}
 		v.Set(reflect.ValueOf(aper.BitString{Bytes: b, BitLength: uint64(n)}))
